@@ -170,6 +170,8 @@ class Inliner:
         self.new_consts = {}    # name -> expression AST
         self.new_cconsts = {}   # (class, name) -> expression AST
         self.classes = {n.name: n for n in tree.body if isinstance(n, ast.ClassDef)}
+        self.foreign = None     # set by the loader: class name -> chain of (Inliner, class name, ClassDef) along its bases
+        self.discovered = False
 
     # ------------------------------------------------------------------ discovery
     def restore_forms(self):
@@ -191,8 +193,9 @@ class Inliner:
         ast.fix_missing_locations(self.tree)
 
     def discover(self):
-        if not self.active:
+        if not self.active or self.discovered:
             return
+        self.discovered = True
         self.restore_forms()
         body = self.tree.body
         mod_names = set()
@@ -300,18 +303,23 @@ class Inliner:
             return self.new_funcs[f.id], None, f.id
         if isinstance(f, ast.Attribute) and isinstance(f.value, ast.Name) and cls is not None:
             if f.value.id == 'self':
-                # method resolution along the module-local single-inheritance chain
-                k_ = cls
-                seen = set()
-                while k_ is not None and k_ not in seen:
-                    seen.add(k_)
-                    if (k_, f.attr) in self.new_methods:
-                        fd, kind = self.new_methods[(k_, f.attr)]
+                # method resolution along the single-inheritance chain (bases may live in other modules)
+                chain = self.foreign(cls) if self.foreign is not None else []
+                if not chain:
+                    chain = []
+                    k_ = cls
+                    seen = set()
+                    while k_ is not None and k_ not in seen and k_ in self.classes:
+                        seen.add(k_)
+                        cdef = self.classes[k_]
+                        chain.append((self, k_, cdef))
+                        k_ = cdef.bases[0].id if (len(cdef.bases) == 1 and isinstance(cdef.bases[0], ast.Name)) else None
+                for inl_, k_, cdef in chain:
+                    if (k_, f.attr) in inl_.new_methods:
+                        fd, kind = inl_.new_methods[(k_, f.attr)]
                         return fd, (ast.Name(id='self', ctx=ast.Load()) if kind == 'method' else None), '%s.%s' % (k_, f.attr)
-                    cdef = self.classes.get(k_)
-                    if cdef is None or any(isinstance(x, ast.FunctionDef) and x.name == f.attr for x in cdef.body):
+                    if any(isinstance(x, ast.FunctionDef) and x.name == f.attr for x in cdef.body):
                         break
-                    k_ = cdef.bases[0].id if (len(cdef.bases) == 1 and isinstance(cdef.bases[0], ast.Name)) else None
             if f.value.id == cls and (cls, f.attr) in self.new_methods and self.new_methods[(cls, f.attr)][1] == 'static':
                 return self.new_methods[(cls, f.attr)][0], None, '%s.%s' % (cls, f.attr)
         return None
@@ -368,6 +376,11 @@ class Inliner:
             free |= _all_names(s)
         free -= locs
         free -= set(params)
+        for n_ in ast.walk(ast.Module(body=body, type_ignores=[])):
+            if isinstance(n_, ast.comprehension):       # comprehension variables live in their own scope
+                free -= {x.id for x in ast.walk(n_.target) if isinstance(x, ast.Name)}
+            elif isinstance(n_, ast.Lambda):
+                free -= {a_.arg for a_ in n_.args.args}
         if free & caller_locals:
             raise NotInlinable('free names %s of the helper are locals of the caller' % sorted(free & caller_locals))
         prelude = []
@@ -661,7 +674,13 @@ class Inliner:
     # ------------------------------------------------------------------ driver
     def run(self):
         self.discover()
-        if not (self.new_funcs or self.new_methods or self.new_consts or self.new_cconsts):
+        inherited = False
+        if self.foreign is not None:
+            for cname in self.classes:
+                for inl_, k_, cdef in self.foreign(cname)[1:]:
+                    if inl_ is not self and any(c2 == k_ for (c2, _m) in inl_.new_methods):
+                        inherited = True
+        if not (self.new_funcs or self.new_methods or self.new_consts or self.new_cconsts or inherited):
             return self.tree
         todo = []
         for n in self.tree.body:
